@@ -552,6 +552,16 @@ pub fn build_separable<T: Sc>(spec: &ModelSpec, a0: &[T]) -> SeparableModel<T> {
     assert!(fam.can_build());
     let names: Vec<String> = (0..fam.p()).map(pname).collect();
     let mut b = SeparableModelBuilder::<T>::new(&names);
+    // the order of the builder calls is varied as a pure function of the shape (replays reproduce it): sample locations and
+    // initial parameters last (0); provisional ones - other values, same lengths - first and the final ones last, the last
+    // call of a kind counting (1); the final ones first, before any function is added (2)
+    let order = (spec.x.len() + fam.m()) % 3;
+    let xs = crate::num::vec_t::<T>(&spec.x);
+    if order == 1 {
+        b = b.independent_variable(xs.map(|v| v * T::f(1.5) + T::f(0.25))).initial_parameters(a0.iter().map(|v| *v * T::f(0.5)).collect());
+    } else if order == 2 {
+        b = b.independent_variable(xs.clone()).initial_parameters(a0.to_vec());
+    }
     for j in 0..fam.m() {
         let deps = fam.deps(j);
         let dn: Vec<String> = deps.iter().map(|&k| pname(k)).collect();
@@ -577,10 +587,10 @@ pub fn build_separable<T: Sc>(spec: &ModelSpec, a0: &[T]) -> SeparableModel<T> {
             _ => unreachable!(),
         }
     }
-    b.independent_variable(crate::num::vec_t::<T>(&spec.x))
-        .initial_parameters(a0.to_vec())
-        .build()
-        .expect("zoo model must build")
+    if order != 2 {
+        b = b.independent_variable(xs).initial_parameters(a0.to_vec());
+    }
+    b.build().expect("zoo model must build")
 }
 
 pub struct Built<T: Sc> {
